@@ -77,6 +77,7 @@ void apply_edits(World &W, Peer &p, const J &edits)
 }
 
 void queue_bytes(World &W, Peer &p, const Bytes &b, uint64_t first_delay_ns);
+Bytes fresh_prefix_pdu(uint8_t ver, int si, uint32_t tag, uint8_t flags);
 
 void apply_pending(World &W, Peer &p)
 {
@@ -88,8 +89,16 @@ void apply_pending(World &W, Peer &p)
 			apply_edits(W, p, e["edits"]);
 			// unsolicited Serial Notify, only on the connection it was scheduled on
 			if (e.geti("send", 0) && p.open && !p.peer_closed && (int)e.geti("gen") == p.gen) {
-				queue_bytes(W, p, pdu_serial_notify((uint8_t)e.geti("ver"), p.session, p.serial), 1000000);
-				W.ctx.count("notifies_sent");
+				Bytes b = e.gets("kind") == "stray" ? fresh_prefix_pdu((uint8_t)e.geti("ver"), p.si, 77, 1)
+								     : pdu_serial_notify((uint8_t)e.geti("ver"), p.session, p.serial);
+				uint64_t gap = (uint64_t)e.geti("gap_ms", 0) * 1000000ull;
+				if (gap) { // header now, the rest later (a slow or congested path)
+					Bytes head(b.begin(), b.begin() + 8), rest(b.begin() + 8, b.end());
+					queue_bytes(W, p, head, 1000000);
+					queue_bytes(W, p, rest, 1000000 + gap);
+				} else
+					queue_bytes(W, p, b, 1000000);
+				W.ctx.count(e.gets("kind") == "stray" ? "stray_pdus_sent" : "notifies_sent");
 			}
 		} else
 			i++;
@@ -432,6 +441,8 @@ void respond(World &W, Peer &p, Exchange &x, const Bytes &query)
 		pend["send"] = (nf.geti("send", 1) && !closes) ? 1 : 0;
 		pend["gen"] = p.gen;
 		pend["ver"] = (int)rv;
+		pend["kind"] = nf.gets("kind", "notify");
+		pend["gap_ms"] = nf.geti("gap_ms", 0);
 		p.pending.push_back(pend);
 	}
 	cache_enter_clean_if_due(W, p);
